@@ -770,9 +770,12 @@ func (ev *Eval) quantifier(kind string, fl *ast.FuncLit) *Val {
 	}
 	var decls []string
 	var ranges []string
-	sub.shift = map[string]string{}
-	for k, v := range ev.shift {
-		sub.shift[k] = v
+	// the re-indexing table is shared between nesting levels, so that an
+	// access s[a] inside an inner quantifier re-indexes the outer variable a
+	if ev.shift != nil {
+		sub.shift = ev.shift
+	} else {
+		sub.shift = map[string]string{}
 	}
 	var bnames []string
 	for _, p := range fl.Type.Params.List {
@@ -1001,6 +1004,10 @@ func (ev *Eval) callExpr(x *ast.CallExpr) *Val {
 		}
 		if a.K == KInt {
 			return vInt(ite(c, a.T, b.T), a.Ty)
+		}
+		if a.K == KStr && b.K == KStr {
+			// inline (a define-fun could capture a bound variable)
+			return &Val{K: KStr, T: ite(c, a.T, b.T), Ty: a.Ty}
 		}
 		return f.mergeVals([]string{c, not(c)}, []*Val{a, b}, "ite")
 	case "fresh":
@@ -1270,6 +1277,9 @@ func (ev *Eval) recSpecCall(sp *SpecFn, args []*Val) *Val {
 		info = &recSpecInfo{resKind: KInt, dummy: "0", rs: "Int"}
 		if sp.ResType != nil && exprString(sp.ResType) == "bool" {
 			info.resKind, info.dummy, info.rs = KBool, "false", "Bool"
+		}
+		if sp.ResType != nil && exprString(sp.ResType) == "string" {
+			info.resKind, info.dummy, info.rs = KStr, "gstr.empty", "Str"
 		}
 		f.recSpecs[sp.Name] = info
 		pkg := f.eng.typesPkg(sp.PkgPath, ev.pkg)
